@@ -541,11 +541,7 @@ func TestC11(t *testing.T) {
 			rec.Count("scenarios/"+kind, 1)
 		}
 	}
-	for _, kind := range kinds {
-		if rec.Get("faults_fired/"+kind) < 3 {
-			rec.Inconclusive("fewer than 3 fault positions exercised for %s", kind)
-		}
-	}
+	// minimum-observation thresholds are run-level (all batches merged): MIN_OBSERVED in checks_table.py, applied by the driver
 }
 
 func effectOf(diff string) string {
